@@ -47,6 +47,10 @@ class TGen:
         elif x < 80: kind, text, ref = "qualified-quoted", "`%s`.`%s`" % (s, n), (s, n)
         elif x < 85: kind, text, ref = "qualified-half-quoted", "`%s`.%s" % (s, n), (s, n)
         elif x < 90: kind, text, ref = "qualified-half-quoted", "%s.`%s`" % (s, n), (s, n)
+        elif x < 92:
+            # a word the lexer reserves (no NAME mark) as the table part of a qualified name: legal, the qualifier makes it a name
+            w = self.ch(["order", "group", "view", "limit", "left", "full", "union", "on", "by", "Select", "FROM", "where", "not", "and", "inner", "having", "minus"])
+            kind, text, ref = "qualified-reserved-word", "%s.%s" % (s, w), (s, w)
         elif x < 94 and self.dotted: kind, text, ref = "quoted-with-dot", "`%s.%s`" % (s, n), (None, s + "." + n)
         elif x < 97 and self.dotted: kind, text, ref = "quoted-with-two-dots", "`%s.%s.z`" % (s, n), (None, s + "." + n + ".z")
         else: kind, text, ref = "keyword-quoted", "`select`", (None, "select")
